@@ -6,8 +6,10 @@ import tfimpl
 
 def gen_cfg(rng, max_vertices=72, allow_other=True, trust_bias=0.7, force_mono=True):
   rank = rng.choice([1, 2, 2, 3, 3, 3, 4])
+  # lattice size 5 occasionally (about one configuration in eight draws from the wider pool)
+  pool = [2, 2, 3, 3, 4, 5, 5] if rng.random() < 0.12 else [2, 2, 3, 3, 4]
   while True:
-    sizes = [rng.choice([2, 2, 3, 3, 4]) for _ in range(rank)]
+    sizes = [rng.choice(pool) for _ in range(rank)]
     if int(np.prod(sizes)) <= max_vertices:
       break
   units = rng.choice([1, 1, 2, 3])
@@ -56,13 +58,61 @@ def gen_cfg(rng, max_vertices=72, allow_other=True, trust_bias=0.7, force_mono=T
       rest = [d for d in cand if d not in juni[0][0]]
       if len(rest) >= k and rng.random() < 0.5:   # second group of the same arity on other dimensions
         juni.append([rng.sample(rest, k), rng.choice(["valley", "peak"])])
+  duplicate_pair(rng, mdom, rdom, jmono)
+  omin, omax = gen_bounds(rng)
+  return dict(sizes=sizes, units=units, monos=monos, edge=edge, trap=trap, uni=uni, mdom=mdom, rdom=rdom,
+              jmono=jmono, juni=juni, omin=omin, omax=omax)
+
+
+def duplicate_pair(rng, mdom, rdom, jmono, p=0.15):
+  """With probability p repeats one monotonic-dominance / range-dominance / joint-monotonicity pair (the same
+  direction; the code accepts that). project_by_dykstra keys its last_change dictionary by the constraint, so the
+  two occurrences share one entry."""
+  lists = [l for l in (mdom, rdom, jmono) if l]
+  if lists and rng.random() < p:
+    l = rng.choice(lists)
+    l.insert(rng.randint(0, len(l)), list(rng.choice(l)))
+
+
+def gen_bounds(rng):
   bmode = rng.choice(["none", "min", "max", "both", "both"])
   a = tfimpl.dy(rng, -4, 4)
   omin = a if bmode in ("min", "both") else None
   omax = a + rng.choice([0.5, 1.0, 4.0]) if bmode in ("max", "both") else None
-  omin, omax = tfimpl.zero_bound(rng, omin, omax)
-  return dict(sizes=sizes, units=units, monos=monos, edge=edge, trap=trap, uni=uni, mdom=mdom, rdom=rdom,
-              jmono=jmono, juni=juni, omin=omin, omax=omax)
+  return tfimpl.zero_bound(rng, omin, omax)
+
+
+def gen_cfg_nomono(rng, max_vertices=72):
+  """No monotone dimension, but at least one of unimodalities / joint monotonicities / joint unimodalities: the strict
+  LatticeConstraints then enters the Dykstra block while finalize_constraints returns its result unchanged (no trusts,
+  no dominances are possible without a monotone dimension)."""
+  while True:
+    rank = rng.choice([1, 2, 2, 3, 3, 4])
+    sizes = [rng.choice([2, 3, 3, 4, 5]) for _ in range(rank)]
+    if int(np.prod(sizes)) > max_vertices:
+      continue
+    uni = [0] * rank
+    jmono, juni = [], []
+    for d in range(rank):
+      if sizes[d] >= 3 and rng.random() < 0.4:
+        uni[d] = rng.choice([-1, 1])
+    if rank >= 2 and rng.random() < 0.5:
+      jmono.append(rng.sample(range(rank), 2))
+      if rank >= 3 and rng.random() < 0.3:
+        jmono.append(rng.sample(range(rank), 2))
+    cand = [d for d in range(rank) if not uni[d] and sizes[d] >= 3]
+    if cand and rng.random() < 0.5:
+      k = rng.randint(1, min(2, len(cand)))
+      juni.append([rng.sample(cand, k), rng.choice(["valley", "peak"])])
+      rest = [d for d in cand if d not in juni[0][0]]
+      if len(rest) >= k and rng.random() < 0.5:
+        juni.append([rng.sample(rest, k), rng.choice(["valley", "peak"])])
+    if any(uni) or jmono or juni:
+      break
+  duplicate_pair(rng, [], [], jmono)
+  omin, omax = gen_bounds(rng)
+  return dict(sizes=sizes, units=rng.choice([1, 1, 2, 3]), monos=[0] * rank, edge=[], trap=[], uni=uni, mdom=[],
+              rdom=[], jmono=jmono, juni=juni, omin=omin, omax=omax)
 
 
 KERNEL_CLASSES = ["random", "random", "far", "ties", "sorted", "antisorted", "constant", "noise"]
